@@ -1,155 +1,436 @@
 package main
 
-// Translator table for C10: the constants of the record codec in pkg/storage/driver/util.go -
-// the gzip magic number, which base64 encoding `b64` is, and the shape of the test that sends
-// decoded bytes through gunzip (`len(b) > 3 && bytes.Equal(b[0:3], magicGzip)`).
-// Regenerated into coq/Gen/CodecConsts.v on every run; Props/C10.v states that they are the
-// ones Storage/Codec.v and Storage/Base64.v model.
+// Translator table for C10: the constants and the dispatch guard of the record codec in
+// pkg/storage/driver (util.go today) - which base64 encoding encodeRelease / decodeRelease use,
+// the gzip magic number, and the condition under which decoded bytes go through gunzip.
+// Regenerated into coq/Gen/CodecConsts.v on every run; Storage/CodecTables.v proves that they
+// are what Storage/Codec.v and Storage/Base64.v model - the guard by EQUIVALENCE for all
+// lengths (so `len(b) > 3`, `!(len(b) <= 3)`, `len(b) >= 4`, an early return on the negation,
+// a helper function ... are the same table as far as the obligation goes).
+//
+// The reader is tolerant about where things stand: it parses every non-test file of the
+// package, starts at encodeRelease / decodeRelease and follows calls to functions of the same
+// package (bounded depth); identifiers are resolved through package-level var/const
+// declarations.  It ALWAYS emits a well-formed table: what it cannot read becomes an explicit
+// Unknown entry that fails the obligation with a message naming the construct.
 
 import (
+	"bytes"
 	"fmt"
 	"go/ast"
+	"go/parser"
+	"go/printer"
 	"go/token"
+	"os"
+	"path/filepath"
+	"sort"
 	"strconv"
 	"strings"
 )
 
 func init() { registerTable("CodecConsts", genCodecConsts) }
 
-func genCodecConsts(repo string) (string, error) {
-	f, _, err := parseFile(repo, "pkg/storage/driver/util.go")
+type c10Pkg struct {
+	fset  *token.FileSet
+	funcs map[string]*ast.FuncDecl
+	vals  map[string]ast.Expr // package-level var / const initialisers
+}
+
+func c10LoadPkg(repo, dir string) (*c10Pkg, error) {
+	p := &c10Pkg{fset: token.NewFileSet(), funcs: map[string]*ast.FuncDecl{}, vals: map[string]ast.Expr{}}
+	ents, err := os.ReadDir(filepath.Join(repo, dir))
 	if err != nil {
-		return "", err
+		return nil, err
 	}
-	var magic []string
-	encoding := ""
-	for _, d := range f.Decls {
-		gd, ok := d.(*ast.GenDecl)
-		if !ok || gd.Tok != token.VAR {
-			continue
+	var names []string
+	for _, e := range ents {
+		n := e.Name()
+		if strings.HasSuffix(n, ".go") && !strings.HasSuffix(n, "_test.go") && !strings.HasPrefix(n, "zz_verif_") {
+			names = append(names, n)
 		}
-		for _, s := range gd.Specs {
-			vs := s.(*ast.ValueSpec)
-			for i, n := range vs.Names {
-				if i >= len(vs.Values) {
+	}
+	sort.Strings(names)
+	for _, n := range names {
+		f, err := parser.ParseFile(p.fset, filepath.Join(repo, dir, n), nil, 0)
+		if err != nil {
+			return nil, err
+		}
+		for _, d := range f.Decls {
+			switch x := d.(type) {
+			case *ast.FuncDecl:
+				if x.Recv == nil && x.Body != nil {
+					p.funcs[x.Name.Name] = x
+				}
+			case *ast.GenDecl:
+				if x.Tok != token.VAR && x.Tok != token.CONST {
 					continue
 				}
-				switch n.Name {
-				case "magicGzip":
-					cl, ok := vs.Values[i].(*ast.CompositeLit)
-					if !ok {
-						return "", fmt.Errorf("magicGzip is not a composite literal")
-					}
-					for _, e := range cl.Elts {
-						bl, ok := e.(*ast.BasicLit)
-						if !ok || bl.Kind != token.INT {
-							return "", fmt.Errorf("magicGzip: unexpected element")
+				for _, s := range x.Specs {
+					vs := s.(*ast.ValueSpec)
+					for i, nm := range vs.Names {
+						if i < len(vs.Values) {
+							p.vals[nm.Name] = vs.Values[i]
 						}
-						v, err := strconv.ParseInt(bl.Value, 0, 64)
-						if err != nil {
-							return "", err
-						}
-						magic = append(magic, fmt.Sprint(v))
 					}
-				case "b64":
-					sel, ok := vs.Values[i].(*ast.SelectorExpr)
-					if !ok {
-						return "", fmt.Errorf("b64 is not a selector expression")
-					}
-					pkg, _ := sel.X.(*ast.Ident)
-					if pkg == nil {
-						return "", fmt.Errorf("b64: unexpected form")
-					}
-					encoding = pkg.Name + "." + sel.Sel.Name
 				}
 			}
 		}
 	}
-	if magic == nil || encoding == "" {
-		return "", fmt.Errorf("magicGzip or b64 not found")
-	}
-	// the test in decodeRelease: len(b) <op> N && bytes.Equal(b[lo:hi], magicGzip)
-	op, n, lo, hi := "", int64(-1), int64(-1), int64(-1)
-	intLit := func(e ast.Expr) (int64, bool) {
-		bl, ok := e.(*ast.BasicLit)
-		if !ok || bl.Kind != token.INT {
-			return 0, false
-		}
-		v, err := strconv.ParseInt(bl.Value, 0, 64)
-		return v, err == nil
-	}
-	for _, d := range f.Decls {
-		fd, ok := d.(*ast.FuncDecl)
-		if !ok || fd.Name.Name != "decodeRelease" {
+	return p, nil
+}
+
+func (p *c10Pkg) text(n ast.Node) string {
+	var b bytes.Buffer
+	printer.Fprint(&b, p.fset, n)
+	return strings.Join(strings.Fields(b.String()), " ")
+}
+
+// resolve follows identifiers through package-level declarations (bounded).
+func (p *c10Pkg) resolve(e ast.Expr) ast.Expr {
+	for i := 0; i < 8; i++ {
+		switch x := e.(type) {
+		case *ast.ParenExpr:
+			e = x.X
 			continue
+		case *ast.Ident:
+			if v, ok := p.vals[x.Name]; ok {
+				e = v
+				continue
+			}
 		}
-		ast.Inspect(fd.Body, func(x ast.Node) bool {
-			is, ok := x.(*ast.IfStmt)
+		break
+	}
+	return e
+}
+
+// intOf evaluates a constant integer expression: literals, named constants, + - *, and
+// len(<byte-slice literal reachable through package-level vars>).
+func (p *c10Pkg) intOf(e ast.Expr) (int64, bool) {
+	e = p.resolve(e)
+	switch x := e.(type) {
+	case *ast.BasicLit:
+		switch x.Kind {
+		case token.CHAR:
+			s, err := strconv.Unquote(x.Value)
+			if err != nil || len(s) != 1 {
+				return 0, false
+			}
+			return int64(s[0]), true
+		case token.INT:
+			v, err := strconv.ParseInt(x.Value, 0, 64)
+			return v, err == nil
+		}
+	case *ast.BinaryExpr:
+		a, ok1 := p.intOf(x.X)
+		b, ok2 := p.intOf(x.Y)
+		if ok1 && ok2 {
+			switch x.Op {
+			case token.ADD:
+				return a + b, true
+			case token.SUB:
+				return a - b, true
+			case token.MUL:
+				return a * b, true
+			}
+		}
+	case *ast.CallExpr:
+		if isLenCall(x) {
+			if m, ok := p.magicBytes(x.Args[0]); ok {
+				return int64(len(m)), true
+			}
+		}
+	}
+	return 0, false
+}
+
+// reach lists the functions reachable from the roots through same-package calls, depth <= 4.
+func (p *c10Pkg) reach(roots ...string) []*ast.FuncDecl {
+	seen := map[string]bool{}
+	var out []*ast.FuncDecl
+	var walk func(name string, depth int)
+	walk = func(name string, depth int) {
+		fd, ok := p.funcs[name]
+		if !ok || seen[name] || depth > 4 {
+			return
+		}
+		seen[name] = true
+		out = append(out, fd)
+		ast.Inspect(fd.Body, func(n ast.Node) bool {
+			if c, ok := n.(*ast.CallExpr); ok {
+				if id, ok := c.Fun.(*ast.Ident); ok {
+					walk(id.Name, depth+1)
+				}
+			}
+			return true
+		})
+	}
+	for _, r := range roots {
+		walk(r, 0)
+	}
+	return out
+}
+
+// encodingOf finds the receiver of the method call (EncodeToString / DecodeString ...) in the
+// functions reachable from root and resolves it to "base64.<Name>".
+func (p *c10Pkg) encodingOf(root string, methods ...string) string {
+	if _, ok := p.funcs[root]; !ok {
+		return "Unknown: function " + root + " not found"
+	}
+	found := ""
+	for _, fd := range p.reach(root) {
+		ast.Inspect(fd.Body, func(n ast.Node) bool {
+			c, ok := n.(*ast.CallExpr)
 			if !ok {
 				return true
 			}
-			and, ok := is.Cond.(*ast.BinaryExpr)
-			if !ok || and.Op != token.LAND {
-				return true
-			}
-			cmp, ok1 := and.X.(*ast.BinaryExpr)
-			call, ok2 := and.Y.(*ast.CallExpr)
-			if !ok1 || !ok2 || len(call.Args) != 2 {
-				return true
-			}
-			if id, ok := call.Args[1].(*ast.Ident); !ok || id.Name != "magicGzip" {
-				return true
-			}
-			fn, ok := call.Fun.(*ast.SelectorExpr)
-			if !ok || (fn.Sel.Name != "Equal" && fn.Sel.Name != "HasPrefix") {
-				return true
-			}
-			lc, ok := cmp.X.(*ast.CallExpr)
-			if !ok || len(lc.Args) != 1 {
-				return true
-			}
-			if id, ok := lc.Fun.(*ast.Ident); !ok || id.Name != "len" {
-				return true
-			}
-			v, ok := intLit(cmp.Y)
+			sel, ok := c.Fun.(*ast.SelectorExpr)
 			if !ok {
 				return true
 			}
-			var l, h int64
-			if fn.Sel.Name == "HasPrefix" {
-				// bytes.HasPrefix(b, magicGzip) compares b[0:len(magicGzip)]
-				if _, ok := call.Args[0].(*ast.Ident); !ok {
-					return true
+			for _, m := range methods {
+				if sel.Sel.Name != m {
+					continue
 				}
-				l, h = 0, int64(len(magic))
-			} else {
-				sl, ok := call.Args[0].(*ast.SliceExpr)
-				if !ok {
-					return true
+				recv := p.resolve(sel.X)
+				s := "Unknown: receiver " + p.text(sel.X) + " of " + m
+				if rs, ok := recv.(*ast.SelectorExpr); ok {
+					if pk, ok := rs.X.(*ast.Ident); ok {
+						s = pk.Name + "." + rs.Sel.Name
+					}
 				}
-				var ok1, ok2 bool
-				l, ok1 = intLit(sl.Low)
-				h, ok2 = intLit(sl.High)
-				if sl.Low == nil {
-					l, ok1 = 0, true
-				}
-				if !ok1 || !ok2 {
-					return true
+				if found == "" || found == s {
+					found = s
+				} else {
+					found = "Unknown: several encodings (" + found + ", " + s + ")"
 				}
 			}
-			op, n, lo, hi = cmp.Op.String(), v, l, h
+			return true
+		})
+	}
+	if found == "" {
+		return "Unknown: no " + strings.Join(methods, "/") + " call reachable from " + root
+	}
+	return found
+}
+
+// magicBytes resolves an expression to a []byte{...} literal of integer constants.
+func (p *c10Pkg) magicBytes(e ast.Expr) ([]int64, bool) {
+	cl, ok := p.resolve(e).(*ast.CompositeLit)
+	if !ok {
+		return nil, false
+	}
+	var out []int64
+	for _, el := range cl.Elts {
+		v, ok := p.intOf(el)
+		if !ok {
+			return nil, false
+		}
+		out = append(out, v)
+	}
+	return out, len(out) > 0
+}
+
+type c10Guard struct {
+	p     *c10Pkg
+	magic []int64 // the magic number the guard compares with (first one seen)
+	name  string  // ... and the identifier it was written as
+	atoms int     // number of magic comparisons read
+}
+
+func coqQuote(s string) string { return `"` + strings.ReplaceAll(s, `"`, `""`) + `"` }
+
+func (g *c10Guard) unknown(n ast.Node) string {
+	return "(GUnknown " + coqQuote(g.p.text(n)) + ")"
+}
+
+func isLenCall(e ast.Expr) bool {
+	c, ok := e.(*ast.CallExpr)
+	if !ok || len(c.Args) != 1 {
+		return false
+	}
+	id, ok := c.Fun.(*ast.Ident)
+	return ok && id.Name == "len"
+}
+
+// magicArg: is e (an identifier, possibly through package-level vars) a byte-slice literal?
+func (g *c10Guard) magicArg(e ast.Expr) bool {
+	id, ok := e.(*ast.Ident)
+	if !ok {
+		return false
+	}
+	m, ok := g.p.magicBytes(id)
+	if !ok {
+		return false
+	}
+	if g.magic == nil {
+		g.magic, g.name = m, id.Name
+		return true
+	}
+	return fmt.Sprint(m) == fmt.Sprint(g.magic)
+}
+
+// expr translates a Go boolean expression into a gexp term; depth bounds helper inlining.
+func (g *c10Guard) expr(e ast.Expr, depth int) string {
+	switch x := e.(type) {
+	case *ast.ParenExpr:
+		return g.expr(x.X, depth)
+	case *ast.UnaryExpr:
+		if x.Op == token.NOT {
+			return "(GNot " + g.expr(x.X, depth) + ")"
+		}
+	case *ast.BinaryExpr:
+		switch x.Op {
+		case token.LAND:
+			return "(GAnd " + g.expr(x.X, depth) + " " + g.expr(x.Y, depth) + ")"
+		case token.LOR:
+			return "(GOr " + g.expr(x.X, depth) + " " + g.expr(x.Y, depth) + ")"
+		case token.LSS, token.LEQ, token.GTR, token.GEQ, token.EQL, token.NEQ:
+			ops := map[token.Token]string{token.LSS: "CLt", token.LEQ: "CLe", token.GTR: "CGt", token.GEQ: "CGe", token.EQL: "CEq", token.NEQ: "CNe"}
+			flip := map[token.Token]token.Token{token.LSS: token.GTR, token.LEQ: token.GEQ, token.GTR: token.LSS, token.GEQ: token.LEQ, token.EQL: token.EQL, token.NEQ: token.NEQ}
+			if isLenCall(x.X) {
+				if n, ok := g.p.intOf(x.Y); ok && n >= 0 {
+					return fmt.Sprintf("(GLen %s %d)", ops[x.Op], n)
+				}
+			}
+			if isLenCall(x.Y) { // constant on the left: 3 < len(b)
+				if n, ok := g.p.intOf(x.X); ok && n >= 0 {
+					return fmt.Sprintf("(GLen %s %d)", ops[flip[x.Op]], n)
+				}
+			}
+		}
+	case *ast.CallExpr:
+		if sel, ok := x.Fun.(*ast.SelectorExpr); ok && len(x.Args) == 2 {
+			if pk, ok := sel.X.(*ast.Ident); ok && pk.Name == "bytes" {
+				switch sel.Sel.Name {
+				case "Equal":
+					for _, ord := range [][2]int{{0, 1}, {1, 0}} {
+						sl, ok := x.Args[ord[0]].(*ast.SliceExpr)
+						if !ok || sl.Slice3 || sl.High == nil || !g.magicArg(x.Args[ord[1]]) {
+							continue
+						}
+						lo, okl := int64(0), true
+						if sl.Low != nil {
+							lo, okl = g.p.intOf(sl.Low)
+						}
+						hi, okh := g.p.intOf(sl.High)
+						if okl && okh && lo >= 0 && hi >= lo {
+							g.atoms++
+							return fmt.Sprintf("(GMagic %d %d)", lo, hi)
+						}
+					}
+				case "HasPrefix":
+					// bytes.HasPrefix(b, magic) = len(b) >= len(magic) && bytes.Equal(b[0:len(magic)], magic)
+					if _, ok := x.Args[0].(*ast.Ident); ok && g.magicArg(x.Args[1]) {
+						g.atoms++
+						n := len(g.magic)
+						return fmt.Sprintf("(GAnd (GLen CGe %d) (GMagic 0 %d))", n, n)
+					}
+				}
+			}
+		}
+		// a predicate of the same package whose body is one return statement
+		if id, ok := x.Fun.(*ast.Ident); ok && depth < 3 {
+			if fd, ok := g.p.funcs[id.Name]; ok && len(fd.Body.List) == 1 {
+				if rs, ok := fd.Body.List[0].(*ast.ReturnStmt); ok && len(rs.Results) == 1 {
+					return g.expr(rs.Results[0], depth+1)
+				}
+			}
+		}
+	}
+	return g.unknown(e)
+}
+
+func callsGunzip(n ast.Node) bool {
+	found := false
+	if n == nil {
+		return false
+	}
+	ast.Inspect(n, func(x ast.Node) bool {
+		if c, ok := x.(*ast.CallExpr); ok {
+			if sel, ok := c.Fun.(*ast.SelectorExpr); ok {
+				if pk, ok := sel.X.(*ast.Ident); ok && pk.Name == "gzip" && sel.Sel.Name == "NewReader" {
+					found = true
+				}
+			}
+		}
+		return !found
+	})
+	return found
+}
+
+func genCodecConsts(repo string) (string, error) {
+	var b strings.Builder
+	b.WriteString("(* pkg/storage/driver: record codec *)\nFrom Helm Require Import Storage.GuardExpr.\n")
+	emit := func(encE, encD string, magic []int64, guard string, positive bool, note string) (string, error) {
+		ms := make([]string, len(magic))
+		for i, v := range magic {
+			ms[i] = fmt.Sprint(v)
+		}
+		fmt.Fprintf(&b, "Definition b64_encoding : string := %s.\n", coqQuote(encE))
+		fmt.Fprintf(&b, "Definition b64_decoding : string := %s.\n", coqQuote(encD))
+		fmt.Fprintf(&b, "Definition magic_gzip : list nat := [%s].\n", strings.Join(ms, "; "))
+		fmt.Fprintf(&b, "(* %s *)\n", strings.ReplaceAll(note, "*)", "* )"))
+		fmt.Fprintf(&b, "Definition magic_guard : gexp := %s.\n", guard)
+		fmt.Fprintf(&b, "Definition magic_guard_positive : bool := %v.\n", positive)
+		return b.String(), nil
+	}
+	p, err := c10LoadPkg(repo, "pkg/storage/driver")
+	if err != nil {
+		return emit("Unknown: "+err.Error(), "Unknown: "+err.Error(), nil, "(GUnknown "+coqQuote(err.Error())+")", true, "package not readable")
+	}
+	encE := p.encodingOf("encodeRelease", "EncodeToString", "Encode", "AppendEncode")
+	encD := p.encodingOf("decodeRelease", "DecodeString", "Decode", "AppendDecode")
+
+	// the guard: an if statement, in a function reachable from decodeRelease, whose condition
+	// compares bytes with a magic number and which decides whether gzip.NewReader runs
+	g := &c10Guard{p: p}
+	guard, positive, note := "", true, ""
+	var candidates []string
+	for _, fd := range p.reach("decodeRelease") {
+		if guard != "" {
+			break
+		}
+		fd := fd
+		ast.Inspect(fd.Body, func(n ast.Node) bool {
+			is, ok := n.(*ast.IfStmt)
+			if !ok || guard != "" {
+				return guard == ""
+			}
+			try := &c10Guard{p: p}
+			term := try.expr(is.Cond, 0)
+			if try.atoms == 0 {
+				if strings.Contains(p.text(is.Cond), "agic") {
+					candidates = append(candidates, p.text(is.Cond))
+				}
+				return true
+			}
+			switch {
+			case callsGunzip(is.Body):
+				positive = true
+			case callsGunzip(is.Else):
+				positive = false
+			case callsGunzip(fd.Body):
+				positive = false // early return: what follows the if statement gunzips
+			default:
+				candidates = append(candidates, p.text(is.Cond)+" (no gzip.NewReader on either side)")
+				return true
+			}
+			*g = *try
+			guard, note = term, "func "+fd.Name.Name+": if "+p.text(is.Cond)
+			if !positive {
+				note += " { not gunzipped }"
+			}
 			return false
 		})
 	}
-	if op == "" {
-		return "", fmt.Errorf("the gzip-magic test of decodeRelease was not recognised")
+	if guard == "" {
+		why := "no if statement comparing bytes with a magic number decides about gzip.NewReader in the functions reachable from decodeRelease"
+		if len(candidates) > 0 {
+			why += "; conditions seen: " + strings.Join(candidates, " | ")
+		}
+		// still report the magic number when there is a conventional one
+		m, _ := p.magicBytes(ast.NewIdent("magicGzip"))
+		return emit(encE, encD, m, "(GUnknown "+coqQuote(why)+")", true, why)
 	}
-	var b strings.Builder
-	b.WriteString("(* pkg/storage/driver/util.go *)\n")
-	fmt.Fprintf(&b, "Definition magic_gzip : list nat := [%s].\n", strings.Join(magic, "; "))
-	fmt.Fprintf(&b, "Definition b64_encoding : string := %q.\n", encoding)
-	fmt.Fprintf(&b, "(* len(b) %s %d && bytes.Equal(b[%d:%d], magicGzip) *)\n", op, n, lo, hi)
-	fmt.Fprintf(&b, "Definition magic_len_test : string * nat := (%q, %d).\n", op, n)
-	fmt.Fprintf(&b, "Definition magic_slice : nat * nat := (%d, %d).\n", lo, hi)
-	return b.String(), nil
+	return emit(encE, encD, g.magic, guard, positive, note)
 }
